@@ -59,6 +59,7 @@ struct fm_shape_info {
   X(void, fm_bin_batch,     (int op, const i64* a, const i64* b, size_t n, i64* out)) \
   X(i64,  fm_shift,         (int left, i64 a, int r)) \
   X(void, fm_shift_range,   (int left, i64 a, int r0, size_t n, i64* out)) \
+  X(void, fm_shift_typed,   (int left, int ctype, i64 a, const i64* counts, size_t n, i64* out)) \
   X(i64,  fm_from_int,      (int how, int type, u64 bits)) \
   X(void, fm_from_int_range,(int how, int type, u64 start, size_t n, i64* out)) \
   X(u64,  fm_to_int,        (int how, int type, i64 a)) \
